@@ -495,7 +495,12 @@ partial def loop (h : IO.FS.Stream) (out : IO.FS.Stream) (st : DState) : IO Unit
             | hs :: ms :: more => (hs.map String.toNat!, ms.map pDraw) :: pairs more
             | _ => []
           let streams := pairs (parts.drop 5)
-          match (buildTable realEnv F convs isInt ent 0.7 ⟨initial, derived⟩ streams).run mainStream with
+          -- the plans of `NoClustering` / `SingleClustering` are computed by the model ("NO" / "SINGLE"); any other plan is given
+          let plan : Clusters := match parts.getD 3 [] with
+            | ["NO"] => noClusteringPlan F.names.length
+            | ["SINGLE"] => singleClusteringPlan F.names.length
+            | _ => ⟨initial, derived⟩
+          match (buildTable realEnv F convs isInt ent 0.7 plan streams).run mainStream with
           | .error e => out.putStrLn ("ERR " ++ e)
           | .ok ((rows, cols), left) =>
               out.putStrLn s!"cols {" ".intercalate (cols.map toString)}"
